@@ -1059,6 +1059,9 @@ class StructuredTypeUnmarshaller(AbstractUnmarshaller[_ST]):
         fields_by_var = {}
         hints = inspection.cached_type_hints(self.t)
         for name, hint in hints.items():
+            # The graph reduces a bare type variable to its bound/constraints.
+            if type(hint) is tp.TypeVar:
+                hint = inspection.normalize_typevar(hint)
             resolved = refs.evaluate(hint)
             m = self.context.get(hint) or self.context.get(resolved)
             if m is None:
